@@ -1281,6 +1281,15 @@ def ill_formed_documents(ctx, big):
                 if per_tag.get(tag, 0) < quota:
                     per_tag[tag] = per_tag.get(tag, 0) + 1
                     work.append((i, xml, m, tag))
+        # corpus of the recorded findings of this class (both tiers reproduce them): the denominator of the first LINEAR scale with limits
+        for i, xml in enumerate(docs):
+            m = re.search(r"<CATEGORY>LINEAR</CATEGORY><COMPU-INTERNAL-TO-PHYS><COMPU-SCALES><COMPU-SCALE><LOWER-LIMIT[^/]*</LOWER-LIMIT>"
+                          r"(?:<UPPER-LIMIT[^/]*</UPPER-LIMIT>)?<COMPU-RATIONAL-COEFFS><COMPU-NUMERATOR>(?:<V>[^<]*</V>)+</COMPU-NUMERATOR>"
+                          r"<COMPU-DENOMINATOR><V>(-?\d+(?:\.\d+)?)<", xml)
+            if m is not None:
+                if not any(w[0] == i and w[2].start(1) == m.start(1) for w in work):
+                    work.append((i, xml, m, "V"))
+                break
         ctx.count("ill_formed_tags", len(per_tag))
         for i, xml, m, tag in work:
             if True:
